@@ -3,7 +3,9 @@ package main
 import (
 	"errors"
 	"fmt"
+	"math"
 	"math/big"
+	"strconv"
 	"strings"
 
 	"go.lstv.dev/util/sem"
@@ -18,6 +20,11 @@ func init() {
 	props["C03"] = runC03
 	replayers["C03/parse"] = func(v rt.Violation) string {
 		c := rt.ReplayCtx("C03")
+		if l, err := strconv.Atoi(rt.ArgString(v, "max_input_length")); err == nil {
+			old := sem.MaxInputLength
+			sem.MaxInputLength = l
+			defer func() { sem.MaxInputLength = old }()
+		}
 		c.Serial("replay", func(w *rt.W) { c03Case(w, rt.ArgString(v, "text"), true) })
 		return c.Report()
 	}
@@ -157,7 +164,7 @@ func c03Case(w *rt.W, s string, full bool) bool {
 		w.Eval(1)
 		formOK := (hasV && e.tag) || (!hasV && e.version)
 		fail := func(key, g, want string) {
-			w.Fail(key, "parse", rt.Args("text", s, "entry", e.name), g, want, e.name+" disagrees with the SemVer 2.0.0 BNF recogniser")
+			w.Fail(key, "parse", rt.Args("text", s, "entry", e.name, "max_input_length", fmt.Sprint(sem.MaxInputLength)), g, want, e.name+" disagrees with the SemVer 2.0.0 BNF recogniser")
 		}
 		if fits && formOK {
 			if err != nil {
@@ -670,6 +677,26 @@ func runC03(c *rt.Ctx) {
 		collisionHistories(c, texts, 300, 200, func(w *rt.W, t string) { c03Case(w, t, true) })
 	}
 
+	// the input limit disabled or raised to the maximum is still "every text of the grammar, and nothing else"
+	{
+		old := sem.MaxInputLength
+		for _, limit := range []int{0, math.MaxInt, math.MaxInt - 1, math.MaxInt32, 1 << 20} {
+			sem.MaxInputLength = limit
+			c.Parallel("limit-disabled-or-raised", 0, func(w *rt.W) {
+				for k := 0; k < 3000/w.NShards; k++ {
+					c03Case(w, genVersionText(w.Rng), true)
+				}
+				if w.Shard == 0 {
+					for _, t := range []string{"1.2.3", "v1.2.3", "0.0.0", "v10.20.30-rc.1+b7", "1.0.0-" + strings.Repeat("a.", 600) + "z", "1.2", "01.2.3", "18446744073709551616.0.0", ""} {
+						c03Case(w, t, true)
+					}
+				}
+				w.ClassN("texts-under-disabled-or-raised-limit", 1)
+			})
+		}
+		sem.MaxInputLength = old
+		c.Require("texts-under-disabled-or-raised-limit", 5)
+	}
 	// the version as other layers spell it (quoted, bracketed, escaped, padded, doubled, other scripts): not the version
 	c.Parallel("decorated", 0, func(w *rt.W) {
 		bases := []string{"1.2.3", "v1.2.3", "0.0.0", "v10.20.30-rc.1+b7", "1.0.0-alpha", "1.0.0+001", "18446744073709551615.0.1", "v0.0.1-0.a.-"}
